@@ -513,8 +513,18 @@ let verify_case c =
      | _ -> "\tmoded=na") in
   Printf.printf "id=%s\tverify=%s%s\n" (field c "id") v moded
 
+(* translation validation of the implementation's optimizer: the validated optimizer of Model/OptSafe.v,
+   run on the implementation's UNOPTIMIZED program, must answer, and answer the implementation's optimized program *)
+let validate_case c =
+  let u = dec_program (field c "uprog") in
+  let v = match optimize_program_safe u with
+    | None -> "refused"
+    | Some p' -> if enc_program p' = field c "prog" then "ok" else "mismatch:" ^ enc_program p' in
+  Printf.printf "id=%s\tvalid=%s\n" (field c "id") v
+
 let run_case c =
   if field c "kind" = "verify" then verify_case c else
+  if field c "kind" = "validate" then validate_case c else
   if String.length (field c "script") > 40000 then Printf.printf "id=%s\tneed=big\n" (field c "id") else
   match field c "kind" with
   | "lex" -> lex_case c
